@@ -129,6 +129,64 @@ def gen_shapes(rnd, thorough):
     return [s for s in shapes if s is not None]
 
 
+# ---- by-reference / through-a-pointer forms: destructure! must only ever move out of an *owned* aggregate. These
+# programs are expected not to compile (that verdict belongs to C17); if a form does compile it is executed over
+# ledger elements and a field that is dropped twice (once as a binding, once with the still-owned aggregate) is a
+# C15 violation observed at run time.
+REF_DECLS = "struct P { a: Tok, b: Tok }\nstruct Q(Tok, Tok);\nstruct G<T> { a: T, b: T }\n"
+REF_FORMS = [
+    ("&mut braced struct", "fn f(v: &mut P) { konst::destructure!{P{a, b} = v} }", "let mut p = P { a: t(1), b: t(2) }; f(&mut p); drop(p);"),
+    ("&mut self braced struct (Self path)", "impl P { fn f(&mut self) { konst::destructure!{Self{a, b} = self} } }", "let mut p = P { a: t(1), b: t(2) }; p.f(); drop(p);"),
+    ("&mut tuple struct", "fn f(v: &mut Q) { konst::destructure!{Q(a, b) = v} }", "let mut p = Q(t(1), t(2)); f(&mut p); drop(p);"),
+    ("&mut generic struct", "fn f(v: &mut G<Tok>) { konst::destructure!{G{a, b} = v} }", "let mut p = G { a: t(1), b: t(2) }; f(&mut p); drop(p);"),
+    ("&mut generic struct, type form", "fn f(v: &mut G<Tok>) { konst::destructure!{G<Tok>{a, b} = v} }", "let mut p = G { a: t(1), b: t(2) }; f(&mut p); drop(p);"),
+    ("&mut tuple annotated with the reference type", "fn f(v: &mut (Tok, Tok)) { konst::destructure!{(a, b): &mut (Tok, Tok) = v} }", "let mut p = (t(1), t(2)); f(&mut p); drop(p);"),
+    ("&mut tuple", "fn f(v: &mut (Tok, Tok)) { konst::destructure!{(a, b) = v} }", "let mut p = (t(1), t(2)); f(&mut p); drop(p);"),
+    ("&mut array", "fn f(v: &mut [Tok; 2]) { konst::destructure!{[a, b] = v} }", "let mut p = [t(1), t(2)]; f(&mut p); drop(p);"),
+    ("&mut array annotated with the reference type", "fn f(v: &mut [Tok; 2]) { konst::destructure!{[a, b]: &mut [Tok; 2] = v} }", "let mut p = [t(1), t(2)]; f(&mut p); drop(p);"),
+    ("& braced struct", "fn f(v: &P) { konst::destructure!{P{a, b} = v} }", "let p = P { a: t(1), b: t(2) }; f(&p); drop(p);"),
+    ("& tuple struct", "fn f(v: &Q) { konst::destructure!{Q(a, b) = v} }", "let p = Q(t(1), t(2)); f(&p); drop(p);"),
+    ("& tuple annotated with the reference type", "fn f(v: &(Tok, Tok)) { konst::destructure!{(a, b): &(Tok, Tok) = v} }", "let p = (t(1), t(2)); f(&p); drop(p);"),
+    ("& array", "fn f(v: &[Tok; 2]) { konst::destructure!{[a, b] = v} }", "let p = [t(1), t(2)]; f(&p); drop(p);"),
+    ("Box<braced struct>", "fn f(v: Box<P>) { konst::destructure!{P{a, b} = v} }", "f(Box::new(P { a: t(1), b: t(2) }));"),
+    ("Box<tuple struct>", "fn f(v: Box<Q>) { konst::destructure!{Q(a, b) = v} }", "f(Box::new(Q(t(1), t(2))));"),
+    ("Rc<braced struct>", "fn f(v: std::rc::Rc<P>) { konst::destructure!{P{a, b} = v} }", "f(std::rc::Rc::new(P { a: t(1), b: t(2) }));"),
+    ("&mut Box<braced struct>", "fn f(v: &mut Box<P>) { konst::destructure!{P{a, b} = v} }", "let mut p = Box::new(P { a: t(1), b: t(2) }); f(&mut p); drop(p);"),
+]
+
+
+def run_reference_forms(cx, out, ledger):
+    srcs = []
+    for i, (name, fn, body) in enumerate(REF_FORMS):
+        text = PRELUDE % {"ledger": ledger} + REF_DECLS + fn + "\nfn main() {\n    std::panic::set_hook(Box::new(|_| {}));\n    unsafe { EVALS += 1; }\n    { %s }\n" % body
+        text += "    let a = audit(&take_log());\n    if !a.clean(false) { println!(\"FAIL\\tledger\\t%s\\tdouble_drops={:?} leaked={:?} unknown={:?} double_received={:?} corrupt={:?}\\teach element exactly once\", a.double_drops, a.leaked, a.unknown_drops, a.double_received, a.corrupt); }\n" % name
+        text += "    println!(\"N\\t{}\", unsafe { EVALS });\n}\n"
+        srcs.append(cx.write("c15_ref_%02d.rs" % i, text))
+    comp = cx.compile_many(srcs)
+    rejected, ran = 0, 0
+    for (name, fn, body), src, (rc, se, outp) in zip(REF_FORMS, srcs, comp):
+        if rc is None:
+            raise kv.Inconclusive("watchdog: rustc did not finish on %s" % src)
+        if rc != 0:
+            if "error: internal compiler error" in (se or ""):
+                raise kv.Inconclusive("rustc ICE on %s" % src)
+            rejected += 1
+            continue
+        # the form compiles: observe what it does with the elements
+        (rrc, so, rse), = cx.run_many([outp])
+        ran += 1
+        bad = [l.split("\t") for l in (so or "").splitlines() if l.startswith("FAIL")]
+        if rrc is not None and rrc < 0:
+            out.fail("C15:destructure-through-reference:crash", "destructure!", "%s: %s" % (name, fn), "accepted, then killed by signal %d" % -rrc, "never moves out of a borrowed / pointed-to aggregate", "generated-program", cmd=outp, source=src)
+        elif bad:
+            out.fail("C15:destructure-through-reference:ledger", "destructure!", "%s: %s" % (name, fn), bad[0][3][:300], "never moves out of a borrowed / pointed-to aggregate: each element dropped exactly once", "generated-program", cmd=outp, source=src)
+        elif rrc != 0:
+            raise kv.Inconclusive("generated program %s exited with %s: %s" % (outp, rrc, (rse or "")[-300:]))
+    out.counters["reference_forms_rejected_by_rustc"] = rejected
+    out.counters["reference_forms_accepted_and_executed"] = ran
+    return ran
+
+
 def run(out, tier, seed):
     thorough = tier == "thorough"
     cx = Ctx("c15")
@@ -213,8 +271,9 @@ def run(out, tier, seed):
                     miri_evals += int(f[1])
         out.engines["miri:generated-programs"] = out.engines.get("miri:generated-programs", 0) + miri_evals
         out.evals += miri_evals
+    evals += run_reference_forms(cx, out, ledger)
     samples = ["destructure!{%s} over ledger elements" % s[1] for s in shapes[::max(1, len(shapes) // 6)][:6]]
     out.add_counts("generated-programs", evals, "c15-shapes", len(shapes), samples,
                    rule="one evaluation = one generated destructure! shape function over ledger elements: bound variables must receive the right ids in order, elements matched by `_`/`..` must be dropped before the statement after the macro, and the conservation audit must be clean; distinct_nontrivial = number of distinct pattern shapes",
-                   exhaustive="tuples and tuple structs of every arity 0..=16 (all bound, `_` at each position, all `_`, annotated), braced structs with 0..=6 fields (plain, annotated+renamed, reversed order, alternating `_`), generic/turbofish/module paths, PhantomData and empty-array fields, repr(C), repr(C,packed), repr(packed(2)), arrays of length 0..=5 with every prefix/rest/suffix split in the `..` and `rest @ ..` forms, `_` elements, parenthesised patterns, nested destructuring")
+                   exhaustive="tuples and tuple structs of every arity 0..=16 (all bound, `_` at each position, all `_`, annotated), braced structs with 0..=6 fields (plain, annotated+renamed, reversed order, alternating `_`), generic/turbofish/module paths, PhantomData and empty-array fields, repr(C), repr(C,packed), repr(packed(2)), arrays of length 0..=5 with every prefix/rest/suffix split in the `..` and `rest @ ..` forms, `_` elements, parenthesised patterns, nested destructuring; %d by-reference / Box / Rc forms (expected to be rejected by rustc; executed over ledger elements whenever one compiles)" % len(REF_FORMS))
     out.counters["shapes_generated"] = len(shapes)
